@@ -202,6 +202,20 @@ CHECKS = {
         note="Trusted: TLC, renderer (cross-checked by tree2ast), the rewrite implementations with their side conditions, absdoc.canon. Renaming of @reference names and @let introduction are not meaning-preserving and are excluded.",
         technique="TLA+ invariance of predicted outcomes under indirection (TLC) + metamorphic replay of AST rewrites on the real compiler with documents compared up to generated names",
     ),
+    "C09": dict(
+        design_ref="DESIGN.md 3.6 (Cycles.tla, EvalOp.tla), 4 (C09)",
+        text="Cycles.tla is the fix-point loop of cycles_check as a state machine (components visited in any order, the inbounds buffer "
+             "shared by the components of an iteration) over every definition graph of 3 (quick) / 4 (thorough) nodes x every set of "
+             "referential nodes: Terminates, Verdict (= the sub-graph of non-referential definitions is acyclic, independently of the "
+             "order), Flags. EvalOp.tla is the stateful evaluator (reference table None -> Some, scope stack, scope-id sequence, event "
+             "sequence) run by TLC on the RecGraphs family (every dependency graph over 2 / 3 declarations of six kinds) and the RecInst "
+             "family (rec expressions inside functions applied 1-3 times, nested, imported, rec in rec, explicit and mutual references). "
+             "Every member is compiled by the real pipeline: rejection of uncuttable cycles, is_recursive flags, termination, number of "
+             "components (distinct instantiations distinct, one instantiation once), closure, no component that is only a reference "
+             "cycle; the real evaluator's event stream (hook H3) is validated event by event against EvalOp.tla's.",
+        note="Trusted: TLC, renderer, hooks H2/H3. One genuine defect (a kinded alias cycle is accepted and emitted as a self-referential $ref) is a recorded known finding.",
+        technique="TLA+ state machine of cycles_check (TLC, all graphs) + TLA+ stateful evaluator over recursion families (TLC) + spec->impl replay with trace validation of evaluator events",
+    ),
 }
 
 PENDING_REASON = "check not built yet (work in progress; see DESIGN.md section 8 for the build order)"
